@@ -19,7 +19,7 @@ thread_local! {
 
 fn dispatch(args: &[&str]) -> Option<String> {
     match args[0] {
-        "lcall" | "rangeall" | "posall" | "endcols" | "edit" | "editlc" | "editfull" | "semtok" => text::run(args),
+        "lcall" | "rangeall" | "posall" | "endcols" | "edit" | "editlc" | "editfull" | "semtok" | "vfsids" => text::run(args),
         "lex" | "parse" | "parsestat" | "shape" | "lossless" | "defs" | "ancestors" | "swallowed" => syntax_cmd::run(args),
         "sweep" => sweep::run(args),
         "race" => race::run(args),
